@@ -64,8 +64,15 @@ func (s *streamWriter) Invoke(msgs []actor.Envelope) {
 	)
 
 	for i := 0; i < len(msgs); i++ {
+		// The stream writer is registered like any other actor, so anybody -
+		// including a remote peer - can address a message to it. Only
+		// streamDeliver messages coming from the router are meant for it.
+		stream, ok := msgs[i].Msg.(*streamDeliver)
+		if !ok {
+			slog.Warn("stream writer received an unexpected message", "msg", msgs[i].Msg)
+			continue
+		}
 		var (
-			stream   = msgs[i].Msg.(*streamDeliver)
 			typeID   int32
 			senderID int32
 			targetID int32
